@@ -11,6 +11,34 @@ CLAIMED = {
          "Every construction route of all 20 validated types is executed on millions of generated inputs (exhaustive strings over class-representative alphabets, every Unicode scalar value and byte in context templates, IP-literal shapes, valid references and their mutants, ill-formed UTF-8) and its verdict, kept text and error payload are compared with a hand-written RFC 3986/3987 recogniser. Held on the executions observed; exhaustive only up to the stated string lengths.",
          "Trusted: the RFC recogniser in harness/src/abnf.rs (anchored by RFC examples at start-up); the committed automata caches are what the build uses (thorough adds a cache-free rebuild).",
          "DESIGN.md 5 C01"),
+ "C02": ("runtime differential monitor: accessors vs Appendix-B splitter over exhaustive small-scope + random valid references",
+         "All component accessors and parts() of Uri/UriRef/Iri/IriRef and their owned forms are executed on every valid reference up to a length bound over an 8-letter alphabet and on grammar-derived random references, and compared (presence and bytes) with an RFC 3986 Appendix-B splitter; every returned component is re-validated by the model and by the library's own checked constructor; 5.3 recomposition must reproduce the text.",
+         "Trusted: the Appendix-B splitter and recogniser in the harness. Exhaustive only up to the stated length.",
+         "DESIGN.md 5 C02"),
+ "C03": ("runtime differential monitor: authority accessors vs section 3.2 splitter over a full product of authority shapes",
+         "user_info/host/port/parts are executed on the full product of user-info x host-kind (incl. every structured IPv6/IPvFuture shape) x port shapes, on all valid authorities up to a length bound over {a : / @ [ ] 1}, and on random authorities - stand-alone, owned and embedded in references - and compared with the RFC 3.2 split.",
+         "Trusted: the section 3.2 splitter in the harness.",
+         "DESIGN.md 5 C03"),
+ "C07": ("runtime monitor: every == impl under catch_unwind vs model equivalence on generated equal / near-equal pairs and triples",
+         "All same-type and cross-type equality impls are run on pairs built to be equal under the documented equivalence (respellings) or to differ by one feature, including escapes whose octets are not UTF-8, and compared in both directions with a model of the documented equivalence; reflexivity, symmetry and transitivity are checked on the library's own answers.",
+         "Trusted: the model equivalence (harness/src/model.rs eq_*).",
+         "DESIGN.md 5 C07"),
+ "C08": ("runtime monitor: Eq/Ord/Hash laws and real HashSet/BTreeSet lookups through every Borrow view",
+         "For pairs and batches of related values the laws eq=>hash, cmp==Equal<=>eq, antisymmetry, partial_cmp==Some(cmp), borrowed==owned are checked with a fixed hasher and DefaultHasher; batches are sorted with the library's cmp and every i<j pair re-checked; owned values are inserted into hashed and ordered collections and looked up through each Borrow implementation between the library's own types.",
+         "Trusted: std collections. Borrow<str>/Borrow<[u8]> and DataUrlBuf are outside the property and not tested.",
+         "DESIGN.md 5 C08"),
+ "C12": ("runtime monitor: segment iterators driven through all front/back interleavings vs '/'-split model",
+         "segments() is driven by every 2^(n+2) interleaving of next/next_back for all paths over a 5-segment alphabet up to a segment bound (random masks for long random paths), always two steps past the end, and the derived queries are compared with values computed from the '/'-split sequence.",
+         "Trusted: the '/'-split model.",
+         "DESIGN.md 5 C12"),
+ "C19": ("runtime monitor: percent-decoded views under catch_unwind vs octet model over all %XX patterns",
+         "as_pct_str/Deref, bytes(), chars(), len(), decode(), == str and into_pct_string are executed for every component type on all single escapes, all pairs of escapes (thorough), multi-byte characters split over escapes, truncated/overlong/surrogate/out-of-range sequences mixed with literal non-ASCII, stand-alone and extracted from references, and compared with a byte-level decoder and std's UTF-8 validation.",
+         "Trusted: std::str::from_utf8. Known findings (pct-str behaviour) are listed in known_findings.json.",
+         "DESIGN.md 5 C19"),
+ "C20": ("runtime instrumentation: counting global allocator around each call + pointer-range checks of returned slices",
+         "A counting #[global_allocator] (thread-local counter) brackets each single parse and accessor call on generated inputs incl. 64 KiB inputs, > 16 segments and > 512-byte paths; the allocation delta must be 0, the parsed value must occupy exactly the input, every returned slice must lie inside it (or be a documented constant) and components must be ordered and disjoint.",
+         "Trusted: the allocator shim counts every alloc/realloc on the calling thread.",
+         "DESIGN.md 5 C20"),
 }
 
 PENDING = {}
